@@ -388,6 +388,9 @@ def _shard_short(shard, seed, tier):
 
 def replay(case):
     global _current_chooser
+    if case["kind"] == "slow":
+        p = _shard_slow(case["mode"], 0, "quick")
+        return (p.violations[0][0], p.violations[0][1]) if p.violations else None
     if case["kind"] == "live":
         p = _shard_live(("live", case.get("server", "thread")), 0, "quick")
         for k, det, c in p.violations:
@@ -532,6 +535,59 @@ def _shard_live(shard, seed, tier):
     return part
 
 
+BIG = 8_000_000
+SLOW_MODES = {"fork": {}, "thread": {"servertype": "ThreadingTCPServer"}, "fork+tls": {"tls": True}, "thread+tls": {"tls": True, "servertype": "ThreadingTCPServer"},
+              "fork+timeout5": {"timeout": 5}, "thread+tls+timeout5": {"tls": True, "servertype": "ThreadingTCPServer", "timeout": 5}}
+
+
+def _shard_slow(shard, seed, tier):
+    """Real deployments, documents of 8 MB (a file, the output of a script, a decompressed file) and a client
+    that starts reading a second after it asked, through a small receive buffer: every byte still arrives, and a
+    Gopher+ length is the length.  What a child process writes goes to the socket's descriptor directly."""
+    import hashlib
+
+    from .. import deploy, worlds
+
+    part = core.Partial()
+    mname = shard
+    mode = SLOW_MODES[mname]
+    text = (b"a line of a big compressed document %07d\n" * 1) 
+    big_text = b"".join(b"line %09d of the big text\n" % i for i in range(BIG // 27))
+    spec = {"huge.bin": bytes(range(256)) * (BIG // 256), "bigout.sh": ("exec", b"#!/bin/sh\nhead -c %d /dev/zero | tr '\\0' 'z'\n" % BIG), "hugec.txt.gz": worlds.gz(big_text)}
+    want = {b"/huge.bin": spec["huge.bin"], b"/bigout.sh": b"z" * BIG, b"/hugec.txt.gz": big_text}
+    srv = deploy.Server(spec, mode, tag="c04s")
+    try:
+        if not srv.started:
+            part.violation("slow|%s|start" % mname, "deployment did not come up: %r" % srv.log()[-400:], {"kind": "slow", "mode": mname})
+            return part
+        for sel, body in want.items():
+            protos = (["gopher", "http", "gopherp"] + (["sgopher", "gemini"] if mode.get("tls") else [])) if sel == b"/huge.bin" else ["gopher", "gopherp"]
+            for proto in protos:
+                data, tls = rig.request(proto, sel)
+                got, err = srv.fetch(data, tls, pause=1.0, rcvbuf=65536, limit=60)
+                part.evaluations += 1
+                part.transitions += 1
+                part.state("slow", mname, proto, sel)
+                payload = got
+                hdr = b""
+                if proto == "http" and b"\r\n\r\n" in got:
+                    hdr, payload = got.split(b"\r\n\r\n", 1)
+                elif proto in ("gopherp", "gemini") and b"\r\n" in got:
+                    hdr, payload = got.split(b"\r\n", 1)
+                ok = err is None and payload == body
+                if ok and proto == "gopherp" and hdr not in (b"+-2", b"+-1", b"+%d" % len(body)):
+                    ok = False
+                part.outcome("slow", mname, proto, sel, ok)
+                if not ok:
+                    part.violation("slow|%s|%s|%s" % (mname, proto, sel.decode()), "a client that reads slowly gets %d of %d bytes of %r via %s (header %r, error %s, sha1 %s vs %s); server log: %r" % (
+                        len(payload), len(body), sel, proto, hdr[:60], err, hashlib.sha1(payload).hexdigest()[:10], hashlib.sha1(body).hexdigest()[:10], srv.log()[-300:]), {"kind": "slow", "mode": mname})
+        if not srv.alive():
+            part.violation("slow|%s|died" % mname, "the server process ended: %r" % srv.log()[-300:], {"kind": "slow", "mode": mname})
+    finally:
+        srv.stop()
+    return part
+
+
 def _undate(out):
     return re.sub(rb"Last-Modified: [^\r\n]*\r\n", b"", out)
 
@@ -561,6 +617,7 @@ def run(ck):
     ck.pmap(_shard, shards)
     bound = 2 if ck.tier == "quick" else 3
     ck.pmap(_shard_live, [("live", "thread"), ("live", "fork")])
+    ck.pmap(_shard_slow, sorted(SLOW_MODES))
     ck.pmap(_shard_short, [(p, s, bound) for p in ("gopher", "gopherp", "http", "gemini", "wap") for s in (2 * BLOCK + 7, 3 * BLOCK, BLOCK - 1)])
     ck.rule = ("documents = content classes %s x sizes %s x %d names, fetched through %d protocols under both handler lists; "
                "12 kinds of object (plain, block-aligned, empty, compressed, script output, archive members, mailbox message, menus, not-found) through 4 protocol pairs over real sockets, TLS answer == plaintext answer; plus every pattern of short reads (each read(n) answered n / n-1 / 1 bytes) with <= %d deviations for 3 file sizes x 5 protocols; distinct = (handler list, protocol, expected type, block-aligned, verdict)"
